@@ -11,6 +11,9 @@ import PoxModel.Spec.OF10Match
     → `{"order":[original index…],"eff":[effective priority…],"exact":[is_exact per original entry…],"lookups":[original index | null…],
         "spec":[[matchHdr per original entry…] per frame],"rank":[Spec.rank per original entry]}`
 
+* `{"op":"tableops","ops":[["add",id,priority,rec,idle_s,hard_s,now_ms] | ["remove",id] | ["rm_match",rec,priority,strict] |
+     ["expire",now_ms] | ["lookup",P,port],…]}` → `{"trace":[["t",raised,[ids in table order]] | ["l",id|null],…]}`
+
 `P = {"src","dst","typ","llc":null|[oui|null,ethType],"vlan":null|[id,pcp,ethType],"l3":null|["ip",s,d,proto,tos,frag,l4]|["arp",op,s,d]}`,
 `l4 = null|["p",src,dst]|["i",type,code]`; `rec = [wildcards,in_port,dl_src,dl_dst,dl_vlan,dl_vlan_pcp,dl_type,nw_tos,nw_proto,nw_src,nw_dst,tp_src,tp_dst]`. -/
 open Pox Pox.Proto Pox.OF
@@ -99,11 +102,53 @@ def doTable (j : J) : Except String J := do
   pure (J.mk [("order", J.ofNats (tbl.map (·.data))), ("eff", J.ofNats (tbl.map Entry.effectivePriority)),
               ("exact", J.arr (es.map fun e => jb e.mtch.isExact)), ("lookups", J.arr lookups), ("spec", J.arr spec), ("rank", J.ofNats (flows.map Spec.rank))])
 
+/-- payload of a table entry in `tableops`: identity and the timeout data `remove_expired_entries` looks at (milliseconds) -/
+structure TD where
+  id : Nat
+  idle : Nat
+  hard : Nat
+  created : Nat
+
+/-- `is_idle_timed_out(now) or is_hard_timed_out(now)` for an entry that was never touched -/
+def deadAt (now : Nat) (e : Entry TD) : Bool :=
+  (e.data.idle > 0 && now - e.data.created > e.data.idle * 1000) || (e.data.hard > 0 && now - e.data.created > e.data.hard * 1000)
+
+def doTableOps (j : J) : Except String J := do
+  let ops ← j.array "ops"
+  let (_, out) ← ops.foldlM (fun (acc : Table TD × List J) oj => do
+    let (tbl, out) := acc
+    let a ← oj.asArr
+    let ids := fun (t : Table TD) => J.ofNats (t.map (·.data.id))
+    match a with
+    | [J.str "add", id, pr, r, idle, hard, now] =>
+      let e : Entry TD := { priority := (← pr.asNat), mtch := (← recOf r).ofWire,
+                            data := { id := (← id.asNat), idle := (← idle.asNat), hard := (← hard.asNat), created := (← now.asNat) } }
+      let (t, raised) := TableOps.step tbl (.add e)
+      pure (t, J.arr [J.str "t", jb raised, ids t] :: out)
+    | [J.str "remove", id] =>
+      let k ← id.asNat
+      let i := tbl.findIdx (fun e => e.data.id == k)          -- `tbl.length` when the object is not in the table
+      let (t, raised) := TableOps.step tbl (.removeAt i)
+      pure (t, J.arr [J.str "t", jb raised, ids t] :: out)
+    | [J.str "rm_match", r, pr, strict] =>
+      let (t, raised) := TableOps.step tbl (.removeMatching (← recOf r).ofWire (← pr.asNat) (← strict.asBool) (fun _ => true))
+      pure (t, J.arr [J.str "t", jb raised, ids t] :: out)
+    | [J.str "expire", now] =>
+      let n ← now.asNat
+      let (t, raised) := TableOps.step tbl (.expire (deadAt n))
+      pure (t, J.arr [J.str "t", jb raised, ids t] :: out)
+    | [J.str "lookup", ph, port] =>
+      let hit := (entryForPacket tbl (← phdrOf ph) (← port.asNat)).map (·.data.id)
+      pure (tbl, J.arr [J.str "l", J.ofOptNat hit] :: out)
+    | _ => bad "tableops: op") (([] : Table TD), ([] : List J))
+  pure (J.mk [("trace", J.arr out.reverse)])
+
 def handle (j : J) : Except String J := do
   match ← j.string "op" with
   | "pairs" => doPairs j
   | "subsume" => doSubsume j
   | "table" => doTable j
+  | "tableops" => doTableOps j
   | o => bad s!"unknown op {o}"
 
 def main : IO Unit := serve handle
